@@ -55,6 +55,7 @@ class Recorder:
         self.errors = []
         self.all_post_steps = []
         self.last_carry = 0
+        self.default = None
 
     # ---- projections -----------------------------------------------------
     def hid(self, x):
@@ -225,8 +226,11 @@ class ScriptedOracle(ConvergenceController):
         if r is None or r.script is None:
             return
         if r.pos >= len(r.script):
-            r.script_exhausted = True
-            raise ScriptExhausted()
+            if r.default is not None:
+                r.script.append(dict(r.default))  # lazily extended script (exploration of the choice tree)
+            else:
+                r.script_exhausted = True
+                raise ScriptExhausted()
         o = r.script[r.pos]
         r.pos += 1
         L = S.levels[0]
@@ -234,7 +238,10 @@ class ScriptedOracle(ConvergenceController):
         if o.get('rs'):
             S.status.restart = True
         dtn = o.get('dtn', 0)
-        L.status.dt_new = (dtn * r.unit) if dtn else None
+        if o.get('dtm'):  # proposal relative to the current step size: dt * m / 2
+            L.status.dt_new = L.params.dt * o['dtm'] / 2
+        else:
+            L.status.dt_new = (dtn * r.unit) if dtn else None
         if o.get('fd'):
             S.status.force_done = True
         S.status.force_continue = bool(o.get('fc'))
@@ -396,7 +403,7 @@ def project_stats(rec, stats):
 
 
 def run_traced(description, controller_params, num_procs, u0_fn, t0, Tend, unit=None, script=None, mode='lattice',
-               extra_hooks=(), controller_cls=TracedController):
+               extra_hooks=(), controller_cls=TracedController, default=None):
     """Build a traced controller from a plain description and run it.  Returns (recorder, outcome dict)."""
     global _CURRENT
     import copy
@@ -417,6 +424,7 @@ def run_traced(description, controller_params, num_procs, u0_fn, t0, Tend, unit=
     cp.setdefault('dump_setup', False)
     rec = Recorder(t0=t0, unit=unit, script=script, mode=mode)
     rec.post_step_obs = []
+    rec.default = default
     out = dict(exc=None, uend=None, stats=None)
     _CURRENT = rec
     try:
